@@ -1,6 +1,7 @@
 """C07 — items are never served after their TTL has elapsed."""
 from ..cacheprop import CacheProp
 from .. import cachegen
+from .c13 import parse_dump
 
 
 class C07(CacheProp):
@@ -49,6 +50,7 @@ class C07(CacheProp):
         fails = []
         tr = cachegen.Trace(case, il)
         rewritten = None     # (key hash, value, deadline or None) written from inside the sweep
+        shown = None         # key hash -> (conflict, value) of the last dump, while nothing has changed the map since
         for st in tr.steps:
             op, res, now = st["op"], st["res"], st["now"]
             if op[0] == "sweeprw":
@@ -66,6 +68,27 @@ class C07(CacheProp):
                                  "bucket, is hidden before its expiration" % (
                                      st["n"], op[1], " ".join(res), rewritten[1],
                                      "no TTL" if rewritten[2] is None else "a later expiration"))
+            # "the TTL alone never hides an item": an entry the white-box dump has just shown in the map, whose own
+            # expiration instant (call time + ttl, exact arithmetic) has not passed, must be served by Get and GetTTL
+            if op[0] == "dump":
+                shown = {}
+                for e in parse_dump(st["raw"]).get("store", []):
+                    f = e.split(":")
+                    if len(f) == 4:
+                        shown[f[0]] = (int(f[1]), int(f[2]))
+            elif op[0] not in ("get", "ttl", "iter", "rem", "metrics", "estcheck", "max", "tick"):
+                shown = None
+            if op[0] in ("get", "ttl") and shown and op[1] in shown:
+                conf, v = shown[op[1]]
+                if (int(op[2]) == 0 or int(op[2]) == conf) and v in tr.val_ttl and tr.val_ttl[v] >= 0 and \
+                        (tr.val_ttl[v] == 0 or now < tr.val_set_time[v] + tr.val_ttl[v]):
+                    ok = res == [str(v), "true"] if op[0] == "get" else res[1:2] == ["true"]
+                    if not ok:
+                        fails.append("op %d: %s(%s) returned %s although the map holds value %d, written at t=%d with ttl %d: "
+                                     "hidden %d ns before its expiration" % (
+                                         st["n"], "Get" if op[0] == "get" else "GetTTL", op[1], " ".join(res), v,
+                                         tr.val_set_time[v], tr.val_ttl[v],
+                                         tr.val_set_time[v] + tr.val_ttl[v] - now if tr.val_ttl[v] else 0))
             if op[0] == "set" and int(op[5]) < 0 and res[:1] != ["false"]:
                 fails.append("op %d: SetWithTTL with negative ttl returned %s" % (st["n"], res))
             if op[0] == "get" and res[1:2] == ["true"]:
